@@ -51,6 +51,7 @@ struct ReplaySchedule : Schedule {       // explicit list of tids; after its end
 struct DfsSchedule : Schedule {
     struct Choice { std::vector<int> alts; size_t idx; int preempts; };
     std::vector<Choice> stack; size_t pos = 0; int bound; int preempts = 0;
+    bool diverged = false;   // a re-execution did not reproduce the recorded prefix (non-deterministic scenario)
     explicit DfsSchedule(int bound_) : bound(bound_) {}
     int pick(int cur, const std::vector<int>& en, size_t step) override;
     bool next();      // advance to the next unexplored schedule; false when the space is exhausted
